@@ -341,6 +341,17 @@ class Body:
             if proj_clean[: len(dproj)] == dproj:
                 out |= self._extend(self._rv_origins(bb, j, rv, depth, transparent, seen), proj_clean[len(dproj):])
         for (bb, j, dplace, rv) in whole:
+            # see through `(a, b).0` / `S { f: x }.f`: project into the aggregate's operand
+            if j != -1 and rv["r"] == "agg" and proj_clean and proj_clean[0].startswith("."):
+                fld = proj_clean[0][1:]
+                idx = None
+                if rv.get("ak") in ("tuple", "array", "closure", "coroutine") and fld.isdigit():
+                    idx = int(fld)
+                elif rv.get("ak") == "adt" and fld in rv.get("fields", []):
+                    idx = rv["fields"].index(fld)
+                if idx is not None and idx < len(rv["o"]):
+                    out |= self._extend(self.origins(rv["o"][idx], depth - 1, transparent, seen), proj_clean[1:])
+                    continue
             out |= self._extend(self._rv_origins(bb, j, rv, depth, transparent, seen), proj_clean)
         if not out:
             out.add(("unknown", "no-def _%d" % local, proj_clean))
